@@ -135,7 +135,10 @@ def oracle_c04(im, ops=None):
         if isinstance(werr, tuple):
             cls, ident = werr
             got = (exc_name(e), getattr(e, "node_id", None) if cls == "MissingNodeError" else getattr(e, "child_id", None))
-            if got != (cls, ident):
+            # when a write of this step failed (the 2.x presentation request, the version query) the
+            # transport error is what leaves, by C10 / C06; C04 quantifies over received messages, not faults
+            write_failed = any(not ok for _, ok in r["writes"])
+            if got != (cls, ident) and not (write_failed and exc_name(e) in ("TransportFailedError", "TransportError")):
                 sig = "C04:error-names-culprit" if got[0] == cls else "C04:missing-error"
                 fs.append(F(sig, f"{r['line'][:60]!r} refers to a {'node' if cls == 'MissingNodeError' else 'child'} not in the registry: expected {cls}({ident}), got {got}", i))
             if r["before"]["nodes"] != r["after"]["nodes"]:
